@@ -39,6 +39,7 @@ def run_dump(cfg, records, wd, tag, preamble="", flags=(), chunk=200, must_compi
     A chunk that fails to compile is bisected; single records that do not compile land in `failed`.
     """
     os.makedirs(wd, exist_ok=True)
+    chunk = max(1, min(chunk, 300))     # larger TUs make the compilers' memory use explode (measured: 5 GB per cc1plus)
     chunks = [records[i:i + chunk] for i in range(0, len(records), chunk)]
     results, failed = {}, {}
     counter = [0]
